@@ -75,6 +75,10 @@ def tyOf : Nat → Val → Option Ty
       let k ← tyOf fuel k
       let t ← tyOf fuel t
       pure (.dictE k t)
+    | .cons (.sym "di") (.cons k (.cons t .nil)) => do
+      let k ← tyOf fuel k
+      let t ← tyOf fuel t
+      pure (.dict k t)
     | .cons (.sym "ee") (.cons (.sym id) .nil) => some (.encErr id)
     | .cons (.sym "o") (.cons (.sym id) .nil) => some (.opaque id)
     | _ => none
